@@ -30,7 +30,7 @@ from __future__ import absolute_import
 
 import struct
 
-from gevent import socket
+from gevent import socket, Timeout
 
 from slimta.edge import EdgeServer
 from slimta.logging import getSocketLogger
@@ -54,6 +54,13 @@ invalid_pp_source_address = (None, None)
 #: The destination address returned if there was a parsing error or EOF
 #: while reading the proxy protocol header.
 invalid_pp_dest_address = (None, None)
+
+
+def _header_timeout(edge):
+    # The header is read before the edge's own session begins: a peer that
+    # never sends it must not hold the connection longer than the edge would
+    # wait for a command.
+    return Timeout(getattr(edge, 'command_timeout', None))
 
 
 class LocalConnection(Exception):
@@ -184,7 +191,10 @@ class ProxyProtocolV1(object):
 
         """
         try:
-            src_addr, _ = self.process_pp_v1(sock, b'')
+            with _header_timeout(self):
+                src_addr, _ = self.process_pp_v1(sock, b'')
+        except Timeout:
+            return
         except AssertionError as exc:
             log.proxyproto_invalid(sock, exc)
             src_addr = invalid_pp_source_address
@@ -299,7 +309,10 @@ class ProxyProtocolV2(object):
 
         """
         try:
-            src_addr, _ = self.process_pp_v2(sock, b'')
+            with _header_timeout(self):
+                src_addr, _ = self.process_pp_v2(sock, b'')
+        except Timeout:
+            return
         except LocalConnection:
             log.proxyproto_local(sock)
             return
@@ -359,13 +372,16 @@ class ProxyProtocol(object):
 
         """
         try:
-            initial = self.__read_pp_initial(sock)
-            if initial.startswith(b'PROXY '):
-                src_addr, _ = ProxyProtocolV1.process_pp_v1(sock, initial)
-            elif initial == b'\r\n\r\n\x00\r\nQ':
-                src_addr, _ = ProxyProtocolV2.process_pp_v2(sock, initial)
-            else:
-                raise AssertionError('Invalid proxy protocol signature')
+            with _header_timeout(self):
+                initial = self.__read_pp_initial(sock)
+                if initial.startswith(b'PROXY '):
+                    src_addr, _ = ProxyProtocolV1.process_pp_v1(sock, initial)
+                elif initial == b'\r\n\r\n\x00\r\nQ':
+                    src_addr, _ = ProxyProtocolV2.process_pp_v2(sock, initial)
+                else:
+                    raise AssertionError('Invalid proxy protocol signature')
+        except Timeout:
+            return
         except LocalConnection:
             log.proxyproto_local(sock)
             return
